@@ -2,6 +2,8 @@
 
  (C) TLC on Backlog.tla (as-implemented ring with the contract as invariants): ReadCorrect, InvalidIff,
      ParkOnlyAtHead, RangeOK, RingHoldsTail, WriterNeverParks; liveness under WF (thorough).
+     Thorough: LogRingInd.tla - slot (Lo+i)%S holds offset Lo+i, a read inside [Lo, Hi) returns its own
+     offsets - as an inductive invariant discharged by Apalache for unbounded offsets, S in 1..6.
  (A) TLC-simulated behaviours of Backlog.tla (two readers, several wrap-arounds) replayed lock-step
      through the gate hooks on the real backlog (memory + file back ends).
  (B) traces of (A) and of free-running writer + readers with byte-granular sizes and jumps around the
@@ -93,6 +95,9 @@ def run(tier, seed, replay=None):
             if not samples and steps:
                 samples.append({"kind": "lock-step behaviour (Backlog actions)", "steps": steps[0][:12]})
             validate_trace(sc, verdict, trace, 2 * UNIT[backend], "replay-" + backend, stats)
+        if thorough:
+            # the ring for an unbounded number of wrap-arounds: inductive invariant by Apalache (LogRingInd.tla)
+            tlc_cmds += vlib.apalache_inductive(sc, "LogRingInd", timeout=1800)
         # (B) free runs
         free = [("mem", 1, 4096), ("mem", 12288, 12288), ("file", 1, 4 * 1024 * 1024)] + ([("mem", 8192, 8192), ("mem", 20000, 20480), ("file", 9 * 1024 * 1024, 12 * 1024 * 1024)] if thorough else [])
         nruns = 0
